@@ -63,6 +63,8 @@ type Transition struct {
 	latestHandlerIsEnter bool
 	latestHandlerIsFinal bool
 	latestHandlerToState string
+	// state of the latest final handler (both FooState and FooEnd)
+	latestHandlerFinalState string
 
 	cacheTargetStates atomic.Pointer[S]
 	cacheStatesBefore atomic.Pointer[S]
@@ -227,6 +229,7 @@ func (t *Transition) CleanCache() {
 	t.cacheTargetStates.Store(nil)
 	t.cacheStatesBefore.Store(nil)
 	t.latestHandlerToState = ""
+	t.latestHandlerFinalState = ""
 	t.latestHandlerIsEnter = false
 	t.latestHandlerIsFinal = false
 	t.cacheClockBefore.Store(nil)
@@ -578,6 +581,7 @@ func (t *Transition) emitHandler(
 	from, to string, isFinal, isEnter bool, event string, args A,
 ) Result {
 	t.latestHandlerToState = to
+	t.latestHandlerFinalState = ""
 	ret, handlerCalled := t.Machine.handle(event, args, isFinal, isEnter, false)
 
 	if handlerCalled && t.Machine.semLogger.IsSteps() {
@@ -596,6 +600,7 @@ func (t *Transition) emitFinalEvents() Result {
 		isEnter := slices.Contains(t.Enters, s)
 
 		var handler string
+		t.latestHandlerFinalState = s
 		if isEnter {
 			handler = s + SuffixState
 			t.latestHandlerToState = s
